@@ -96,7 +96,14 @@ RULE = (
     "github.io, fr, blogspot.com.au, s3.amazonaws.com; every 6th / 20th in thorough): the ancestors of the rule inside "
     "the suffix, the wildcard parent, the excepted host, a child, a grandchild and an upper-case spelling of it, a fresh "
     "sibling under the wildcard (a public suffix itself) with child and grandchild, every label that continues the "
-    "parent in another rule with a child; each host of a family as u (bare) against the whole family (bare and with "
+    "parent in another rule with a child; and the IDN rules (rules holding a non-ASCII or an xn-- label: the six fixed "
+    "ones 公司.cn, xn--p1ai, рф, xn--mgba3a4f16a.ir, aéroport.ci, אקדמיה.ישראל + every 15th multi-label Unicode rule + every "
+    "50th single-label Unicode / ACE rule; every 2nd / 4th in thorough) in EVERY SPELLING (as listed, all labels "
+    "ACE-encoded, all ACE labels decoded, only the first IDN label re-spelled; RFC 3492 by CPython's punycode codec), one "
+    "family per spelling: ancestors inside the rule, the rule, a child of each kind {ASCII, raw Unicode, valid ACE, "
+    "undecodable ACE, upper-case ACE prefix}, grandchildren mixing an undecodable / raw label with decodable ones on "
+    "either side, the other spellings with a child (look-alike non-ancestors); each host of a family as u (bare) "
+    "against the whole family (bare and with "
     "/a?q=1), both modes. For these cases NO answer of the real split_suffix is shipped to the model: op lru_pairs_psl "
     "computes the stems with the model of suffix_trie.py on the trie built from the regenerated list "
     "(Lru.pslSplitT) and also returns its split of every host, SameSuffixSplit, outsideSuffixT and dnsName — compared "
@@ -108,8 +115,8 @@ RULE = (
     "+ accessors, lru_stems(u), url_to_lru(u), both modes) and must agree with CPython / ural."
 )
 EXHAUSTIVE = {
-    "quick": "all 82,944 ordered pairs of the 288-URL mini universe (2 schemes x 2 ports x hosts {com, a.com, www.a.com, co.uk, a.co.uk, uk} x paths {'', '/', '/a', '/a/b'} x extras {'', '?q=1', '#f'}) x suffix_aware in {False, True}; all ordered host pairs of the family of EVERY exception rule and EVERY wildcard rule of the regenerated public suffix list (and of about 150 plain rules) x {bare, with path and query} x suffix_aware in {False, True}",
-    "thorough": "all 82,944 ordered pairs of the 288-URL mini universe (as in quick) x suffix_aware in {False, True}; the public-suffix-list families as in quick with about 1,500 plain rules; the 7,600-URL universe is sampled (about 3.6 million pairs)",
+    "quick": "all 82,944 ordered pairs of the 288-URL mini universe (2 schemes x 2 ports x hosts {com, a.com, www.a.com, co.uk, a.co.uk, uk} x paths {'', '/', '/a', '/a/b'} x extras {'', '?q=1', '#f'}) x suffix_aware in {False, True}; all ordered host pairs of the family of EVERY exception rule and EVERY wildcard rule of the regenerated public suffix list (and of about 150 plain rules, and of about 30 IDN rules in every spelling x child labels {ASCII, raw Unicode, valid ACE, undecodable ACE, upper-case ACE prefix}) x {bare, with path and query} x suffix_aware in {False, True}; the subdomain law of the real split_suffix on every (host, subdomain) pair of these families",
+    "thorough": "all 82,944 ordered pairs of the 288-URL mini universe (as in quick) x suffix_aware in {False, True}; the public-suffix-list families as in quick with about 1,500 plain rules and about 240 IDN rules; the 7,600-URL universe is sampled (about 3.6 million pairs)",
 }
 TRUSTED = [
     t
@@ -122,7 +129,7 @@ TRUSTED = [
     for t in B.TRUSTED
 ]
 ASSUMPTIONS = [
-    "C08 clause used as hypothesis (SplitLaw) by the theorems with an abstract split_suffix: its parts re-join to the lower-cased host; checked on every URL of this run. The *_psl theorems assume nothing about split_suffix (it is the model of suffix_trie.py on the regenerated list: splitLaw_psl, sameSuffixSplit_of_outside, split_nobar_psl); what ties them to the code is the per-run obligation that the real split_suffix answers like that model on every host of the public-suffix-list families and of the corpus (op lru_pairs_psl, a disagreement is a broken correspondence)",
+    "C08 clause used as hypothesis (SplitLaw) by the theorems with an abstract split_suffix: its parts re-join to the lower-cased host; checked on every URL of this run. The *_psl theorems assume nothing about split_suffix (it is the model of suffix_trie.py on the regenerated list: splitLaw_psl, sameSuffixSplit_of_outside, split_nobar_psl); what ties them to the code is the per-run obligation that the real split_suffix answers like that model on every host of the public-suffix-list families (IDN rules in every spelling included) and of the corpus (op lru_pairs_psl, a disagreement is a broken correspondence); the law the forward theorem draws from the list algorithm (hostLen_subdomain: a subdomain whose public suffix has fewer labels than the parent host leaves the parent the same public suffix) is also evaluated on the REAL split_suffix over every (host, subdomain) pair of the families (run_obligations: broken obligation `law`)",
     "reading: 'subdomain' = whole-label suffix of the dotted host between DNS names (an IPv4 literal / bracketed literal has no subdomains: hypothesis NamesOrEqual); 'extends / may add' presuppose that u has nothing later in the hierarchy host -> path -> query -> fragment; the forward law is demanded for u without userinfo (userinfo stems come last; the quantifier's universe has none); empty path stems aside = clean_trailing_path on both sides; suffix-aware converse compares hosts lower-cased; 'DNS name', 'IP literal' and 'public suffix' are read by the oracle independently of ural (narrow special-host definition and the publicsuffix.org algorithm scanned over the regenerated list, harness/props/C08.py), never from is_special_host / split_suffix",
     "reading of the clause 'the serialized LRU of u is a string prefix of that of v': for the string url_to_lru RETURNS (empty path stems kept) it is demanded — and proved — when v's path segments read as they are, empty ones included, extend u's (UnderRaw; implies Under); with 'empty path stems aside' carried over from the first clause it is stated — and proved — for serialize_lru(clean_trailing_path(lru_stems(.))), a string no ural function returns. For url_to_lru under plain Under it is FALSE (url_to_lru('http://a.com/') = 's:http|h:com|h:a|p:|' is no prefix of url_to_lru('http://a.com/x') = 's:http|h:com|h:a|p:x|': theorem raw_lru_not_prefix_witness) and not demanded",
 ]
